@@ -129,6 +129,13 @@ func c05Run(cs c05Case) (fs []F) {
 		d1.SetSample(0, sent)
 		dyn.Conv(s1, d1)
 		want := d1.Sample(0)
+		// "depends only on source sample k and the two formats": not on what the destination held
+		d1.SetSample(0, dyn.Tok(d, 33))
+		dyn.Conv(s1, d1)
+		if w2 := d1.Sample(0); !sameBits(w2, want) {
+			fail("depends-on-destination", "converting source value %v alone gives %v into a destination holding 77 but %v into one holding 33", v, want, w2)
+			break
+		}
 		if !sameBits(g, want) {
 			fail("positionwise", "result %d is %v but converting source sample %d (%v) alone gives %v", k, g, k, v, want)
 			break
